@@ -277,7 +277,11 @@ def stepReg (st : DState) (args : List String) : Option (DState × String) :=
     match cd, parseScale? quantum with
     | some cd, some qu =>
       let (r', res) := r.declClass
-        { name, defineAs := cd, refUnitSymbol := optStr rsym, refUnitName := rname == "1",
+        -- `rname` = "0" | "1" (reference unit name given), optionally prefixed by
+        -- `sub:<Parent>:` when the class statement names another concrete type as its
+        -- base class: the new type is a quantity type of its own all the same
+        { name, defineAs := cd, refUnitSymbol := optStr rsym,
+          refUnitName := rname == "1" || rname.endsWith ":1",
           quantum := qu }
       some (setReg r', showDecl r' res true)
     | _, _ => some (st, bad)
